@@ -20,7 +20,7 @@ pub fn spec() -> Spec {
     Spec {
         prop: "C12",
         level: "exploration",
-        rule: "Real server via start() on loopback, raw HTTP so the Authorization header is arbitrary. Enumerated completely: every registered method (real method table) x {call, notification, batch element first/middle/last mixed with public calls, batch of only notifications; for indexer-only methods also: string id, batch of one, last of a 31-element batch, two indexer-only calls in one batch, notification between public calls, an element that is not a JSON-RPC request in front of the call, a batch of exactly the batch limit and of one less with the call at a varying position} x {no header, wrong user, wrong password, right user + empty password, lower-case scheme, bad base64, two wrong headers, doubled space, suffix-extended credentials, correct} x {auth on, off}. Deny-listed + not authorised => JSON-RPC error 401 for that element and no effect (state digest through authorised reads, incl. an executing read that would stall on an open block, equal before/after); everything else served (no 401). Completeness: each method is also invoked authorised with well-formed parameters on a scratch server and classified by effect (Obs, open block, pool); every method classified mutating must have been refused in the unauthorised sweep; afterwards a fixed authorised script must answer exactly as on a twin server that never saw the sweep. Registered methods the harness has no parameters for (aliases, new methods) are called without credentials with the parameters of every indexer-only method and must not change state. Thorough adds 16 shards of 1 500 random batch compositions each (2..50 elements, 1-3 indexer-only calls at random positions among public calls, notifications and non-requests). Non-trivial = matrix cell whose expectation is 'refused' or 'state must be unchanged'.",
+        rule: "Real server via start() on loopback, raw HTTP so the Authorization header is arbitrary. Enumerated completely: every registered method (real method table) x {call, notification, batch element first/middle/last mixed with public calls, batch of only notifications; for indexer-only methods also: string id, batch of one, last of a 31-element batch, two indexer-only calls in one batch, notification between public calls, an element that is not a JSON-RPC request in front of the call, a batch of exactly the batch limit and of one less with the call at a varying position} x {no header, wrong user, wrong password, right user + empty password, lower-case scheme, bad base64, two wrong headers, doubled space, suffix-extended credentials, correct} x {auth on, off}. Deny-listed + not authorised => JSON-RPC error 401 for that element and no effect (state digest through authorised reads, incl. an executing read that would stall on an open block, equal before/after); everything else served (no 401). Completeness: each method is also invoked authorised with well-formed parameters on a scratch server and classified by effect (Obs, open block, pool); every method classified mutating must have been refused in the unauthorised sweep; afterwards a fixed authorised script must answer exactly as on a twin server that never saw the sweep. Registered methods the harness has no parameters for (aliases, new methods) are called without credentials with the parameters of every indexer-only method and must not change state. Credentials from the whole RFC 7617 alphabet (base64 with '+', '/', both paddings, UTF-8, colons, 300 characters, random printable passwords): the configured pair opens the indexer interface, a pair one character off, the header cut short and no header do not. Thorough adds 16 shards of 1 500 random batch compositions each (2..50 elements, 1-3 indexer-only calls at random positions among public calls, notifications and non-requests). Non-trivial = matrix cell whose expectation is 'refused' or 'state must be unchanged'.",
         assumptions: vec!["a request carrying two Authorization headers of which one is correct is not judged (HTTP leaves the choice to the server)".into()],
         exhaustive: false,
         min_nontrivial: 2,
@@ -594,6 +594,7 @@ pub fn worker(ctx: &WorkerCtx) -> WorkerReport {
         random_batches(ctx, &mut rep, &names, &deny, &variants, &btc);
     } else {
         twin_after_sweep(ctx, &mut rep, &names, &deny, &btc);
+        credential_alphabet(ctx, &mut rep, &btc);
         // start() must fail when auth is enabled without credentials
         for (u, p) in [(None, Some(PASS.to_string())), (Some(USER.to_string()), None), (None, None)] {
             let dir = rpc::fresh_dir("C12");
@@ -616,6 +617,85 @@ pub fn worker(ctx: &WorkerCtx) -> WorkerReport {
     }
     let _ = BTreeMap::<u8, u8>::new();
     rep
+}
+
+/// Credentials are configuration, not a constant: servers configured with credentials from the whole
+/// alphabet RFC 7617 allows (bytes whose base64 contains '+', '/' and either padding, UTF-8, a colon in the
+/// password, long values). The right pair must open the indexer interface, a pair differing in one
+/// character (and the same header without its last character) must not.
+fn credential_alphabet(ctx: &WorkerCtx, rep: &mut WorkerReport, btc: &str) {
+    use base64::Engine;
+    let mut rng = ctx.rng();
+    let mut pairs: Vec<(String, String)> = vec![
+        ("indexer".into(), "?question".into()),
+        ("indexer".into(), "~tilde~~".into()),
+        ("ab".into(), ">>>>>>>>".into()),
+        ("пользователь".into(), "пароль".into()),
+        ("user".into(), "pass:with:colons".into()),
+        ("u".into(), "p".into()),
+        ("x".into(), "y".repeat(300)),
+    ];
+    for _ in 0..(if ctx.thorough() { 40 } else { 5 }) {
+        let n = rng.range(1, 24) as usize;
+        let pw: String = (0..n).map(|_| (0x21 + rng.below(0x5e) as u8) as char).collect();
+        pairs.push((format!("idx{}", rng.below(1000)), pw));
+    }
+    let mine = json!({"jsonrpc": "2.0", "id": 1, "method": "brc20_mine", "params": {"block_count": 1, "timestamp": 5}}).to_string();
+    let t = Duration::from_secs(30);
+    for (u, p) in pairs {
+        let dir = rpc::fresh_dir("C12");
+        let mut c = rpc::make_config("regtest", true, btc, dir.to_str().unwrap());
+        let port = http::free_port();
+        c.brc20_prog_rpc_server_url = format!("127.0.0.1:{}", port);
+        c.brc20_prog_rpc_server_enable_auth = true;
+        c.brc20_prog_rpc_server_user = Some(u.clone());
+        c.brc20_prog_rpc_server_password = Some(p.clone());
+        let handle = match rpc::rt().block_on(async { brc20_prog::start(c).await.map_err(|e| e.to_string()) }) {
+            Ok(h) => h,
+            Err(e) => {
+                rep.inconclusive(format!("server with generated credentials did not start: {}", e));
+                rpc::remove_dir(&dir);
+                continue;
+            }
+        };
+        let addr = format!("127.0.0.1:{}", port);
+        let enc = base64::prelude::BASE64_STANDARD.encode(format!("{}:{}", u, p));
+        let class = format!("{}{}{}{}", if enc.contains('+') { "+" } else { "" }, if enc.contains('/') { "/" } else { "" }, if enc.ends_with("==") { "==" } else if enc.ends_with('=') { "=" } else { "" }, if !u.is_ascii() || !p.is_ascii() { "utf8" } else { "" });
+        // wrong first: nothing may have been mined when the right pair is tried
+        let mut wrong_p = p.clone();
+        let last = wrong_p.pop().unwrap_or('a');
+        wrong_p.push(if last == 'z' { 'y' } else { 'z' });
+        for (name, hdr) in [("one-char-off", http::basic(&u, &wrong_p)), ("header-cut-short", format!("Authorization: Basic {}", &enc[..enc.len() - 1])), ("none", String::new())] {
+            let hs: Vec<String> = if hdr.is_empty() { vec![] } else { vec![hdr] };
+            rep.evaluations += 1;
+            match http::post(&addr, &hs, &mine, t) {
+                Ok(r) => {
+                    let v: Value = serde_json::from_str(&r.body).unwrap_or(Value::Null);
+                    if !has_401(&v) {
+                        violation(rep, "C12", ctx.seed, &format!("not-refused:credential-alphabet:{}", name), format!("a server configured with generated credentials (base64 class '{}') served brc20_mine under header variant {}: {}", class, name, &r.body[..r.body.len().min(200)]), json!({"user": u, "password": p}));
+                    } else {
+                        rep.nontrivial(format!("credential-alphabet:refused:{}:{}", class, name));
+                    }
+                }
+                Err(e) => rep.inconclusive(format!("http error: {}", e)),
+            }
+        }
+        rep.evaluations += 1;
+        match http::post(&addr, &[http::basic(&u, &p)], &mine, t) {
+            Ok(r) => {
+                let v: Value = serde_json::from_str(&r.body).unwrap_or(Value::Null);
+                if has_401(&v) || v.get("result").is_none() {
+                    violation(rep, "C12", ctx.seed, "authorised-call-refused:credential-alphabet", format!("the configured credentials (base64 class '{}') were refused: {}", class, &r.body[..r.body.len().min(200)]), json!({"user": u, "password": p, "base64": enc}));
+                } else {
+                    rep.nontrivial(format!("credential-alphabet:served:{}", class));
+                }
+            }
+            Err(e) => rep.inconclusive(format!("http error: {}", e)),
+        }
+        let _ = handle.stop();
+        rpc::rt().block_on(async { handle.stopped().await });
+        rpc::remove_dir(&dir);
+    }
 }
 
 pub fn shards(thorough: bool) -> u64 {
